@@ -494,7 +494,7 @@ def model_lines(case, eps_used, want_fd=True):
     return lines, index
 
 
-def run_driver_parallel(ctx, lines, nthreads=8):
+def run_driver_parallel(ctx, lines, nthreads=12):
     """fan the lines out over several driver processes (each ctx.driver.run call is one process below 400 lines)"""
     if len(lines) < 40:
         return ctx.driver.run(lines)
@@ -587,43 +587,497 @@ def guards(case, r):
     return None
 
 
-def cancel_hits(case, r):
-    """sites of the two cancellation regions of operation.py met by this case:
-    calcQ (se3 Exp backward, SE3 Log backward / Jinvp): eps < theta < 1e-2 with tau != 0;
-    so3_Jl (so3 / se3 / rxso3 Exp backward): eps < theta < 1e-3"""
+def site_info(case, r):
+    """coefficient sites met by this case.
+    band  : some Exp / Log / Jinvp / Retr node evaluates so3_Jl, rxso3_Ws or (SE3) calcQ / so3_Jl_inv coefficients where
+            the closed forms lose accuracy by cancellation ((1-cos t)/t^2 etc.: eps < theta < 1e-3), or is an SE3 node
+            (calcQ closed forms above 0.05) — the 4*sqrt(eps) allowance of the property applies;
+    trunc : relative allowance for the documented truncation of sim3_Jl / sim3_Jl_inv (sum over the Sim3 sites)"""
+    P = U.pp()
     eps = common.EPS[case["dtype"]]
-    hits = []
+    band, trunc = False, 0.0
     for kind, g, x in r.rec:
         if x.numel() == 0:
             continue
         x = x.double()
         if kind == "Exp":
-            if g == "Sim3":
-                continue
             th = x[..., U.PHISL[g]].norm(dim=-1)
-            sel = (th > eps) & (th < 1e-3)
-            if bool(sel.any()):
-                hits.append({"site": "so3_Jl", "theta": float(th[sel].min())})
-            if g == "SE3":
-                tau = x[..., :3].norm(dim=-1)
-                sel = (th > eps) & (th < 1e-2) & (tau > 0)
-                if bool(sel.any()):
-                    hits.append({"site": "calcQ", "theta": float(th[sel].min()), "tau": float(tau[sel].max())})
-        elif g == "SE3":
-            th = quat_angle(x[..., 3:7])
-            sel = (th > eps) & (th < 1e-2)
-            if bool(sel.any()):
-                hits.append({"site": "calcQ", "theta": float(th[sel].min()), "tau": float(x[..., :3].norm(dim=-1).max())})
-    return hits
+            xi = x
+        else:
+            th = quat_angle(x[..., U.QSL[g]])
+            xi = None
+        if g == "SE3" or bool(((th > eps) & (th < 1e-3)).any()):
+            band = True
+        if g == "Sim3":
+            if xi is None:
+                with torch.no_grad():
+                    xi = P.LieTensor(x, ltype=P.Sim3_type).Log().tensor()
+            tau, phi, sg = xi[..., :3].norm(dim=-1), xi[..., 3:6].norm(dim=-1), xi[..., 6].abs()
+            a = float(torch.sqrt(4 * phi ** 2 + 3 * sg ** 2 + 3 * tau ** 2).max())
+            if kind == "Exp":
+                trunc += a ** 6 * math.exp(a) / 5040
+            elif a < 5.5:
+                trunc += 2 * a ** 6 / 30240 / (1 - (a / (2 * math.pi)) ** 2)
+            else:
+                trunc += 1e9
+    return band, trunc
 
 
-def trunc_allowance(case, M):
-    """documented truncation of sim3_Jl / sim3_Jl_inv: relative allowance for the oracle, or None (= skip oracle)"""
-    ops = prog_ops(from_json(case["prog"]))
-    if not any(g == "Sim3" and o in ("Exp", "Log", "Retr", "Jinvp") for o, g in ops):
-        return 0.0
+def tol_rel(dtype, band):
+    """relative tolerance of gradient comparisons (coordinator's ruling, notes/C04.md): 4*sqrt(eps_dtype) in general —
+    the allowance the property gives the translation block of Exp, because (1-cos t)/t^2 legitimately loses up to 5e-9
+    near t = 1e-8 — and 1e4*eps for float64 programs that meet no coefficient site in a cancellation band"""
+    if dtype == "float64" and not band:
+        return 1e4 * common.EPS["float64"]
+    return 4 * math.sqrt(common.EPS[dtype])
+
+
+def leaf_rows(case, M, li, key):
+    """per-item rows of leaf li summed into the leaf's own (flat) shape"""
+    bshape = tuple(case["bshape"])
+    nb = int(math.prod(bshape))
+    return sum_to_leaf(bshape, tuple(case["lshapes"][li]), [M[key][b][li] for b in range(nb)])
+
+
+def leaf_cmax(case, M, li):
+    bshape = tuple(case["bshape"])
+    nb = int(math.prod(bshape))
+    n = int(math.prod(case["lshapes"][li]))
+    acc = [0.0] * n
+    for b in range(nb):
+        acc[item_index(bshape, tuple(case["lshapes"][li]), b)] += M["cmax"][b]
+    return acc
+
+
+def compare_grads(case, r, M, band):
+    """-> list of (leaf, row, err, tol) where the real gradient and the model backprop differ beyond tolerance"""
+    ltypes = [tuple(t) for t in case["ltypes"]]
+    t = tol_rel(case["dtype"], band)
+    bad = []
+    worst = 0.0
+    for li, ty in enumerate(ltypes):
+        want = leaf_rows(case, M, li, "grad")
+        wabs = leaf_rows(case, M, li, "abs")
+        cm = leaf_cmax(case, M, li)
+        got = r.grads[li]
+        got = [[0.0] * tdim(ty) for _ in want] if got is None else got.reshape(-1, tdim(ty)).tolist()
+        for i, (gr, wr, ar) in enumerate(zip(got, want, wabs)):
+            err = max((abs(a - b) for a, b in zip(gr, wr)), default=0.0)
+            sc = max(ar, default=0.0) + cm[i]
+            if sc > 0:
+                worst = max(worst, err / sc / t)
+            if not (err <= t * sc):
+                bad.append((li, i, err, t * sc))
+    return bad, worst
+
+
+def compare_oracle(case, r, M, band, trunc):
+    """the property's own statement: real gradient (manifold slots) == true left-perturbation derivative.
+    -> (list of (leaf, row, err, tol), n_checked, n_skipped)"""
+    ltypes = [tuple(t) for t in case["ltypes"]]
+    bshape = tuple(case["bshape"])
+    nb = int(math.prod(bshape))
+    t = tol_rel(case["dtype"], band) + 30 * trunc
+    bad, nchk, nskip = [], 0, 0
+    for li, ty in enumerate(ltypes):
+        rows = [M["fd"][b][li] for b in range(nb)]
+        if any(not isinstance(x, list) for x in rows):
+            nskip += 1
+            continue
+        m = tangent_dim(ty)
+        want = sum_to_leaf(bshape, tuple(case["lshapes"][li]), rows)
+        wabs = leaf_rows(case, M, li, "abs")
+        cm = leaf_cmax(case, M, li)
+        got = r.grads[li]
+        got = [[0.0] * tdim(ty) for _ in want] if got is None else got.reshape(-1, tdim(ty)).tolist()
+        nchk += 1
+        for i, (gr, wr, ar) in enumerate(zip(got, want, wabs)):
+            err = max((abs(a - b) for a, b in zip(gr[:m], wr)), default=0.0)
+            sc = max(max(ar, default=0.0) + cm[i], max((abs(v) for v in wr), default=0.0))
+            if not (err <= t * sc):
+                bad.append((li, i, err, t * sc))
+    return bad, nchk, nskip
+
+
+def structural_checks(ctx, case, r):
+    """clauses that need no model: no NaN/Inf, last storage slot of every group gradient exactly zero, types/shapes"""
+    ltypes = [tuple(t) for t in case["ltypes"]]
+    node = from_json(case["prog"])
+    ps = prog_str(node)[:160]
+    out_ty = node_type(node, ltypes)
+    ok = True
+    if not r.out_shape_ok:
+        ctx.fail(case, f"type: output shape wrong for {ps}")
+        ok = False
+    want_lt = {"G": lambda g: g + "Type", "A": lambda g: U.ALG[g] + "Type"}.get(out_ty[0])
+    if want_lt is not None and (not r.out_is_lie or r.out_ltype != want_lt(out_ty[1])):
+        ctx.fail(case, f"type: output of {ps} is {r.out_ltype}, expected {want_lt(out_ty[1])}")
+        ok = False
+    for li, (ty, g) in enumerate(zip(ltypes, r.grads)):
+        if g is None:
+            continue
+        if not bool(torch.isfinite(g).all()):
+            ctx.fail(case, f"nan: gradient of leaf {li} ({ty}) of {ps} contains NaN/Inf ({case['dtype']})")
+            ok = False
+        if tuple(g.shape) != tuple(case["lshapes"][li]) + (tdim(ty),):
+            ctx.fail(case, f"type: gradient shape {tuple(g.shape)} of leaf {li} of {ps}")
+            ok = False
+        elif ty[0] == "G" and g.numel() and float(g[..., -1].abs().max()) != 0.0:
+            ctx.fail(case, f"slot: last storage slot of the {ty[1]} gradient is {float(g[..., -1].abs().max()):.3e}, not 0, in {ps}")
+            ok = False
+    return ok
+
+
+def eps_variants(dtype):
+    e = common.EPS[dtype]
+    return [e, e * (1 + 2.0 ** -48), e * (1 - 2.0 ** -48)]
+
+
+def evaluate_cases(ctx: Ctx, cases, stream, want_fd=True):
+    """cases: list of (case, ImplResult). Runs the model for all of them, compares, records."""
+    all_lines, spans = [], []
+    for case, r in cases:
+        lines, index = model_lines(case, common.EPS[case["dtype"]], want_fd=want_fd)
+        spans.append((len(all_lines), len(lines), index))
+        all_lines += lines
+    reps = run_driver_parallel(ctx, all_lines)
+    retry = []
+    for (case, r), (o, n, index) in zip(cases, spans):
+        M = collect_model(case, reps[o:o + n], index)
+        ok = judge_case(ctx, case, r, M, stream, final=False)
+        if ok is None:
+            retry.append((case, r, M))
+    # near a branch threshold the float code and the exact model may sit on different sides: evaluate the model with
+    # eps(1±2^-48) too and accept either (DESIGN §2.2)
+    for case, r, M0 in retry:
+        accepted = False
+        for ev in eps_variants(case["dtype"])[1:]:
+            lines, index = model_lines(case, ev, want_fd=False)
+            M = collect_model(case, ctx.driver.run(lines), index)
+            M["fd"] = M0["fd"]
+            if judge_case(ctx, case, r, M, stream, final=False, quiet=True) is True:
+                accepted = True
+                ctx.count("branch-neighbour-accepted")
+                break
+        if not accepted:
+            judge_case(ctx, case, r, M0, stream, final=True)
+
+
+def judge_case(ctx: Ctx, case, r, M, stream, final, quiet=False):
+    """True = everything agrees; None = model/impl disagreement (caller may retry with the neighbouring branch);
+    with final=True disagreements are recorded."""
+    node = from_json(case["prog"])
+    ps = prog_str(node)[:200]
+    band, trunc = r.band, r.trunc
+    nb = int(math.prod(case["bshape"]))
+    dtype = case["dtype"]
+    # forward value
+    tf = 4 * math.sqrt(common.EPS[dtype])
+    out = r.out.reshape(nb, -1).tolist() if nb else []
+    fbad = None
+    for b in range(nb):
+        sc = max(1.0, max((abs(v) for v in M["eval"][b]), default=0.0))
+        e = max((abs(a - c) for a, c in zip(out[b], M["eval"][b])), default=0.0)
+        if not (e <= tf * sc) or len(out[b]) != len(M["eval"][b]):
+            fbad = (b, e, tf * sc)
+    gbad, worst = compare_grads(case, r, M, band)
+    if DEBUG and not quiet:
+        ctx.hist["dbg.worst_ratio_x1000"] = max(ctx.hist.get("dbg.worst_ratio_x1000", 0), int(worst * 1000))
+    if (fbad or gbad) and not final:
+        return None
+    if fbad:
+        ctx.disagree("fwd", case, f"value of {ps} ({dtype}): item {fbad[0]} err {fbad[1]:.3e} > {fbad[2]:.3e}")
+    if gbad:
+        li, i, err, t = gbad[0]
+        ctx.disagree("grad", case, f"backward of {ps} ({dtype}): leaf {li} {case['ltypes'][li]} row {i}: |autograd - model backprop| = {err:.3e} > {t:.3e} ({len(gbad)} rows)")
+    if quiet:
+        return not (fbad or gbad)
+    # oracle: the property itself
+    if trunc * 30 > 1e-2:
+        ctx.count("oracle.skipped.sim3-truncation")
+    else:
+        obad, nchk, nskip = compare_oracle(case, r, M, band, trunc)
+        ctx.count("oracle.leaves-checked", nchk)
+        if nskip:
+            ctx.count("oracle.leaves-skipped.fd-unstable", nskip)
+        if obad:
+            li, i, err, t = obad[0]
+            ops = sorted({f"{o}[{g}]" for o, g in prog_ops(node)})
+            ctx.fail(case, f"jacobian: autograd gradient of leaf {li} {case['ltypes'][li]} differs from the true left-perturbation "
+                           f"derivative by {err:.3e} > {t:.3e} in {ps} ({dtype}); ops {ops}")
+    return not (fbad or gbad)
+
+
+# ----------------------------------------------------------------------------- streams
+
+def prepare(ctx: Ctx, case, rng, tries=8):
+    """draw values until the case lies in the quantifier's domain; run the real code. -> ImplResult or None"""
+    node = from_json(case["prog"])
+    ps = prog_str(node)[:160]
+    for _ in range(tries):
+        fill_values(rng, case)
+        try:
+            r = run_case_impl(case, route="backward" if rng.random() < 0.3 else "grad")
+        except Exception as e:
+            ctx.fail(case, f"raises: autograd of {ps} raised {type(e).__name__}: {str(e)[:160]}")
+            return None
+        g = guards(case, r)
+        if g is None:
+            r.band, r.trunc = site_info(case, r)
+            return r
+        ctx.count("domain-redraw." + g)
     return None
 
 
+def account(ctx: Ctx, case, stream):
+    node = from_json(case["prog"])
+    ops = prog_ops(node)
+    for o, g in ops:
+        ctx.count(f"op.{o}.{g}")
+    ctx.count(f"{stream}.depth{prog_depth(node)}")
+    ctx.count(f"{stream}.leaves{len(case['ltypes'])}")
+    ctx.count(f"{stream}.{case['dtype']}")
+    ctx.count(f"{stream}.root.{case['root'][0]}")
+    nontrivial = any(any(abs(v) > 0 for v in torch.tensor(vals).flatten().tolist()[:64]) for vals in case["values"])
+    sig = (stream, prog_str(node), case["dtype"], tuple(case["tags"]), tuple(case["bshape"]))
+    ctx.note_case(sig, nontrivial)
+    ctx.sample({"stream": stream, "program": prog_str(node)[:200], "dtype": case["dtype"], "batch": case["bshape"],
+                "leaf_types": case["ltypes"], "regimes": case["tags"]}, cap=10)
+
+
+def run_prog(ctx: Ctx, n_cases: int):
+    rng = ctx.rng
+    cases = []
+    for ci in range(n_cases):
+        dtype = "float32" if ci % 4 == 3 else "float64"
+        case = make_case(rng, dtype)
+        r = prepare(ctx, case, rng)
+        if r is None:
+            ctx.count("prog.dropped")
+            continue
+        if not structural_checks(ctx, case, r):
+            continue
+        account(ctx, case, "prog")
+        cases.append((case, r))
+    evaluate_cases(ctx, cases, "prog")
+
+
+LOCAL_OPS = [("U", "Exp"), ("U", "Log"), ("U", "Inv"), ("U", "Matrix"), ("U", "MatrixA"), ("B", "Mul"), ("B", "Act"),
+             ("B", "Act4"), ("B", "Adj"), ("B", "AdjT"), ("B", "Jinvp"), ("Retr", "Retr")]
+
+
+def local_case(rng, op, g, dtype):
+    """depth-1 program around one Function"""
+    kind, name = op
+    G, A = ("G", g), ("A", g)
+    if name == "Exp":
+        node, L = ("U", "Exp", g, ("L", 0)), [A]
+    elif name == "Log":
+        node, L = ("U", "Log", g, ("L", 0)), [G]
+    elif name == "Inv":
+        node, L = ("U", "Inv", g, ("L", 0)), [G]
+    elif name == "Matrix":
+        node, L = ("U", "Matrix", g, ("L", 0)), [G]
+    elif name == "MatrixA":
+        node, L = ("U", "Matrix", g, ("U", "Exp", g, ("L", 0))), [A]
+    elif name == "Mul":
+        node, L = ("B", rng.choice(["Mul", "Mul*"]), g, ("L", 0), ("L", 1)), [G, G]
+    elif name == "Act":
+        node, L = ("B", "Act", g, ("L", 0), ("L", 1)), [G, ("E3",)]
+    elif name == "Act4":
+        node, L = ("B", "Act4", g, ("L", 0), ("L", 1)), [G, ("E4",)]
+    elif name in ("Adj", "AdjT", "Jinvp"):
+        node, L = ("B", name, g, ("L", 0), ("L", 1)), [G, A]
+    else:
+        node, L = ("Retr", g, ("L", 0), ("L", 1)), [G, A]
+    if rng.random() < 0.15 and len(L) == 2 and L[0] == L[1]:
+        node = node[:3] + (("L", 0), ("L", 0))     # X @ X : shared leaf
+        L = L[:1]
+    shape = rng.choice([(), (2,), (3,), (2, 2)])
+    lshapes = [shape if (not shape or rng.random() < 0.75) else () for _ in L]
+    bshape = tuple(torch.broadcast_shapes(*lshapes))
+    return {"stream": "local", "prog": to_json(node), "ltypes": [list(t) for t in L], "dtype": dtype,
+            "lshapes": [list(s) for s in lshapes], "bshape": list(bshape), "root": list(node_type(node, L))}
+
+
+def run_local(ctx: Ctx, reps: int):
+    """every Function alone, every group, both dtypes, on the full ladder (identity, zero vector, eps-neighbourhood, …)"""
+    rng = ctx.rng
+    cases = []
+    for rep in range(reps):
+        for op in LOCAL_OPS:
+            for g in GROUPS:
+                dtype = "float32" if (rep + len(cases)) % 3 == 2 else "float64"
+                case = local_case(rng, op, g, dtype)
+                r = prepare(ctx, case, rng, tries=12)
+                if r is None:
+                    ctx.count("local.dropped")
+                    continue
+                if not structural_checks(ctx, case, r):
+                    continue
+                account(ctx, case, "local")
+                cases.append((case, r))
+    # the identity element / zero vector explicitly (finiteness + exactness there)
+    for g in GROUPS:
+        ident = {"SO3": [0, 0, 0, 1.], "SE3": [0, 0, 0, 0, 0, 0, 1.], "RxSO3": [0, 0, 0, 1., 1.], "Sim3": [0, 0, 0, 0, 0, 0, 1., 1.]}[g]
+        for op in LOCAL_OPS:
+            if op[1] == "Jinvp":
+                continue          # Jinvp: "away from the zero rotation"
+            for dtype in ("float64", "float32"):
+                case = local_case(rng, op, g, dtype)
+                case["lshapes"] = [[] for _ in case["ltypes"]]
+                case["bshape"] = []
+                fill_values(rng, case)
+                for li, ty in enumerate(case["ltypes"]):
+                    if ty[0] == "G":
+                        case["values"][li] = list(map(float, ident))
+                    elif ty[0] == "A":
+                        case["values"][li] = [0.0] * AD_[g]
+                case["tags"] = ["identity"] * len(case["ltypes"])
+                try:
+                    r = run_case_impl(case)
+                except Exception as e:
+                    ctx.fail(case, f"raises: autograd of {prog_str(from_json(case['prog']))} at the identity raised {type(e).__name__}: {str(e)[:120]}")
+                    continue
+                r.band, r.trunc = site_info(case, r)
+                if not structural_checks(ctx, case, r):
+                    continue
+                account(ctx, case, "identity")
+                cases.append((case, r))
+    evaluate_cases(ctx, cases, "local")
+
+
+def contract(c, J):
+    return torch.tensordot(c, torch.Tensor.as_subclass(J, torch.Tensor), dims=c.dim()).double()
+
+
+def route_grads(case, route):
+    """c·J through one of the other public routes"""
+    P = U.pp()
+    D = U.dt(case["dtype"])
+    node = from_json(case["prog"])
+    ltypes = [tuple(t) for t in case["ltypes"]]
+    bshape = tuple(case["bshape"])
+    c = torch.tensor(case["cot"], dtype=torch.float64).to(D)
+
+    def mk():
+        return [torch.tensor(v, dtype=torch.float64).to(D).reshape(tuple(s) + (tdim(t),))
+                for v, s, t in zip(case["values"], case["lshapes"], ltypes)]
+
+    def f_t(*ts):
+        leaves = [wrap_leaf(P, t, x) for t, x in zip(ltypes, ts)]
+        return as_tensor(P, run_impl(P, node, leaves, [])).reshape(bshape + (-1,))
+
+    def f_l(*ls):
+        return as_tensor(P, run_impl(P, node, list(ls), [])).reshape(bshape + (-1,))
+    if route in ("jacobian", "jacobian-vectorize"):
+        J = torch.autograd.functional.jacobian(f_t, tuple(mk()), vectorize=(route != "jacobian"))
+    elif route == "jacrev":
+        leaves = [wrap_leaf(P, t, x) for t, x in zip(ltypes, mk())]
+        J = P.func.jacrev(f_l, argnums=tuple(range(len(leaves))))(*leaves)
+    elif route in ("modjac", "modjac-vectorize"):
+        class Mod(torch.nn.Module):
+            def __init__(s):
+                super().__init__()
+                for i, (t, x) in enumerate(zip(ltypes, mk())):
+                    setattr(s, f"p{i}", P.Parameter(wrap_leaf(P, t, x)) if t[0] in "GA" else torch.nn.Parameter(x))
+
+            def forward(s):
+                return f_l(*[getattr(s, f"p{i}") for i in range(len(ltypes))])
+        J = P.optim.functional.modjac(Mod(), vectorize=(route != "modjac"))
+        J = J if isinstance(J, tuple) else (J,)
+    else:
+        raise AssertionError(route)
+    return [contract(c, j) for j in J]
+
+
+ROUTES = ["jacobian", "jacobian-vectorize", "jacrev", "modjac", "modjac-vectorize"]
+
+
+def check_routes(ctx: Ctx, case, r) -> bool:
+    """all public routes return the same c·J as autograd.grad (same backward passes, other batching machinery)"""
+    node = from_json(case["prog"])
+    ps = prog_str(node)[:160]
+    ok = True
+    t = 64 * common.EPS[case["dtype"]] if case["dtype"] == "float64" else 4 * math.sqrt(common.EPS["float32"])
+    for route in case.get("routes", ROUTES):
+        ctx.count("routes." + route)
+        try:
+            gs = route_grads(case, route)
+        except Exception as e:
+            c2 = dict(case, route=route, exception=f"{type(e).__name__}: {str(e)[:200]}")
+            ctx.fail(c2, f"raises: {route} of {ps} raised {type(e).__name__}: {str(e)[:100]}")
+            ok = False
+            continue
+        for li, (a, b) in enumerate(zip(gs, r.grads)):
+            b = torch.zeros_like(a) if b is None else b
+            if tuple(a.shape) != tuple(b.shape):
+                ctx.fail(dict(case, route=route), f"route: {route} gradient shape {tuple(a.shape)} vs {tuple(b.shape)} for {ps}")
+                ok = False
+                continue
+            sc = 1.0 + float(b.abs().max()) if b.numel() else 1.0
+            if r.cmax is not None:
+                sc += r.cmax
+            err = float((a - b).abs().max()) if b.numel() else 0.0
+            if not (err <= t * sc):
+                ctx.fail(dict(case, route=route), f"route: {route} disagrees with autograd.grad by {err:.3e} (> {t * sc:.3e}) on leaf {li} of {ps} ({case['dtype']})")
+                ok = False
+    return ok
+
+
+def run_routes(ctx: Ctx, n_cases: int):
+    rng = ctx.rng
+    # every (op, group) at least through the vmapped routes once per run, then random programs
+    todo = [local_case(rng, op, g, "float64") for op in LOCAL_OPS for g in GROUPS]
+    for ci in range(n_cases):
+        todo.append(make_case(rng, "float32" if ci % 5 == 4 else "float64", depth=rng.choice([1, 2, 3, 4]), maxleaves=3))
+    for ci, case in enumerate(todo):
+        case["stream"] = "routes"
+        if ci < len(LOCAL_OPS) * len(GROUPS):
+            case["routes"] = ["jacobian-vectorize", "jacrev"] if ci % 2 else ["modjac-vectorize", "jacobian"]
+        r = prepare(ctx, case, rng)
+        if r is None:
+            continue
+        r.cmax = float(torch.tensor(case["cot"]).abs().max()) * 10 if case["cot"] else 1.0
+        account(ctx, case, "routes")
+        check_routes(ctx, case, r)
+
+
 def run(ctx: Ctx):
-    raise NotImplementedError
+    torch.set_num_threads(max(1, min(4, int(os.environ.get("OMP_NUM_THREADS", "4")))))
+    run_local(ctx, ctx.pick(2, 12))
+    run_prog(ctx, ctx.pick(170, 2600))
+    run_routes(ctx, ctx.pick(16, 300))
+
+
+def search(ctx: Ctx):
+    """after a broken proof / correspondence: hunt harder for an input on which the property itself fails"""
+    run_local(ctx, 6)
+    run_prog(ctx, 600)
+
+
+def replay(ctx: Ctx, case) -> bool:
+    c = case["case"]
+    n0 = len(ctx.failures)
+    try:
+        r = run_case_impl(c)
+    except Exception as e:
+        print(f"  implementation raises {type(e).__name__}: {e}")
+        return False
+    r.band, r.trunc = site_info(c, r)
+    r.cmax = None
+    print("  program:", prog_str(from_json(c["prog"])), c["dtype"], "batch", c["bshape"])
+    if c.get("route"):
+        c2 = dict(c, routes=[c["route"]])
+        ok = check_routes(ctx, c2, r)
+    else:
+        structural_checks(ctx, c, r)
+        evaluate_cases(ctx, [(c, r)], c.get("stream", "prog"))
+        ok = len(ctx.failures) == n0 and not ctx.disagreements
+    for li, g in enumerate(r.grads):
+        print(f"  autograd gradient of leaf {li} {c['ltypes'][li]}:", None if g is None else g.flatten().tolist()[:16])
+    for f in ctx.failures[n0:]:
+        print("  fails:", f["what"])
+    for d in ctx.disagreements:
+        print("  model disagrees:", d["detail"])
+    return ok and len(ctx.failures) == n0
